@@ -197,7 +197,7 @@ func checkC06(r *Report) {
 func checkC07(r *Report) {
 	p := loadResolve("", true)
 	pathTrusted(r)
-	r.Explain = "Path rules on the SSA control-flow graph of the Maven resolver's traversal. C07.a LOOP-ACCOUNT on the loop over a version's imports that calls findMatch: every path of an iteration ends in AddEdge, AddError or return, except two documented skips attached to the true edge of their guard: the artifact is excluded on this path (isExcluded) and scope == \"provided\" in multi-registry mode. C07.b PAIR: the AddNode in the loop is followed by an AddEdge to that node. C07.c GRAPH-WRITERS as for npm. C07.d RETRY-BOUND: the retry loop on incompatible requirements compares a counter that is incremented once per iteration with the constant maxRetries. C07.e NODE-REGISTERED: every table that records the id of a node added in the loop on some path records it on every continuing path, so the de-duplication tables that enforce one version per artifact stay in step with the graph. Not decided: nearest-wins, range satisfaction, management override."
+	r.Explain = "Path rules on the SSA control-flow graph of the Maven resolver's traversal. C07.a LOOP-ACCOUNT on the loop over a version's imports that calls findMatch: every path of an iteration ends in AddEdge, AddError or return, except two documented skips attached to the true edge of their guard: the artifact is excluded on this path (isExcluded) and scope == \"provided\" in multi-registry mode. C07.b PAIR: the AddNode in the loop is followed by an AddEdge to that node. C07.c GRAPH-WRITERS as for npm. C07.d RETRY-BOUND: the retry loop on incompatible requirements compares a counter that is incremented once per iteration with the constant maxRetries. C07.e NODE-REGISTERED: every table that records the id of a node added in the loop on some path records it on every continuing path, so the de-duplication tables that enforce one version per artifact stay in step with the graph. C07.f INHERITED-SET: the exclusion set stored in a traversal node is shared by reference with the nodes that inherit it and is therefore never written in place (a new node's set is built in the dependency's own freshly parsed map). Not decided: nearest-wins, range satisfaction, management override."
 	fn := p.lookupFn("(*resolve/maven.resolver).resolve")
 	if fn == nil {
 		r.bad("C07.a/LOOP-ACCOUNT", "maven resolve", "", "function (*resolve/maven.resolver).resolve not found")
@@ -243,6 +243,7 @@ func checkC07(r *Report) {
 	graphWritersRule(r, p, e, "C07.c/GRAPH-WRITERS", []*ssa.Function{root})
 	loopBoundRule(r, p, "C07.d/RETRY-BOUND", root, "maxRetries")
 	nodeRegisteredRule(r, p, "C07.e/NODE-REGISTERED", fn, l)
+	inheritedSetRule(r, p, e, "C07.f/INHERITED-SET")
 }
 
 // nodeRegisteredRule: every map that records the id returned by an AddNode of
